@@ -105,11 +105,13 @@ def check_affinity_fn(rep, row, part, compute, expect_named, call_out, X):
                 viol(rep, row, part, f"an f-divergence has no affinity, got {type(out).__name__}", "affinity-not-none")
         return
     if src["kind"] == "precomputed":
-        rep.case(key)
-        with fw.capture():
-            out = compute(ctxdecoy)
-        if not (out is ctxdecoy or same(out, ctxdecoy) == "equal"):
-            viol(rep, row, part, "the affinity is not the matrix passed as y", "precomputed-not-used")
+        frac = ctxdecoy + 0.375                           # non-integer entries: a cast to the dtype of X would show
+        for y_ in (ctxdecoy, frac):
+            rep.case(key + (y_ is frac,))
+            with fw.capture():
+                out = compute(y_)
+            if not (out is y_ or same(out, y_) == "equal"):
+                viol(rep, row, part, "the affinity is not the matrix passed as y", "precomputed-not-used")
         return
     # named / callable: y must be ignored
     expected = expect_named(src["name"], kw) if src["kind"] == "named" else call_out
@@ -175,12 +177,60 @@ def check_row(rep, ctx, row):
         X = ctx.X
         call = fw.aff_value(fam, "callable")(X) if e["source"]["kind"] == "callable" else None
         check_affinity_fn(rep, row, "affinity", lambda y: g.compute_affinity(X.copy(), y), named_oracle(fam, X), call, X)
+        if e["source"]["kind"] == "precomputed" and e["verdict"] != "error":
+            # the data may be handed over as integers (score / path do not convert it): the user's matrix is still the affinity
+            Xi = np.round(X * 4).astype(np.int64)
+            check_affinity_fn(rep, row, "affinity-intX", lambda y: g.compute_affinity(Xi.copy(), y), named_oracle(fam, X), call, X)
+        # (c) a hyperparameter changed with set_params AFTER the objective has been used once must be honoured
+        check_set_params(rep, ctx, row, model)
         if e["verdict"] == "error":
             check_error_api(rep, ctx, row)
     elif row["role"] == "features":
         check_features(rep, ctx, row, model)
     elif row["role"] == "kauri":
         check_kauri_row(rep, ctx, row, model)
+
+
+_SP_DONE = set()
+
+
+def check_set_params(rep, ctx, row, model):
+    """model.get_gemini() was just used; now change the objective-defining hyperparameters to another documented value and ask
+    again: the new GEMINI must be the one the NEW parameters describe (nothing may be memoised across set_params)."""
+    cls, h = row["cls"], row["hyper"]
+    if row["expect"]["verdict"] == "error" or ctx_rows_budget(cls) <= 0 or not hasattr(ctx, "all_rows"):
+        return
+    others = [r for r in ctx.all_rows if r["cls"] == cls and r["role"] == "gemini" and r["expect"]["verdict"] != "error"
+              and (r["expect"]["family"], r["expect"]["ovo"]) != (row["expect"]["family"], row["expect"]["ovo"])
+              and r["expect"]["source"]["kind"] in ("named", "none")]
+    if not others:
+        return
+    plain = [r for r in others if r["hyper"].get("gemini") != "instance"]     # registry names / None / class hyperparameters
+    others = plain or others
+    other = others[(ctx_rows_budget(cls) * 7 + len(fw.row_key(row))) % len(others)]
+    _BUDGET[cls] = ctx_rows_budget(cls) - 1
+    _SP_DONE.add(cls)
+    try:
+        with fw.capture():
+            target = fw.build(other)
+            model.set_params(**{k: v for k, v in target.get_params().items() if k in ("gemini", "kernel", "metric", "ovo", "kernel_params", "metric_params")})
+            g2 = model.get_gemini()
+            ok, msg = ctx.orc.identify(g2, other["expect"]["family"], other["expect"]["ovo"])
+    except Exception as ex:
+        rep.case((fw.row_key(row), "set_params"))
+        viol(rep, row, "set_params", f"set_params to {describe(other)} then get_gemini raised {type(ex).__name__}: {ex}", "set-params-raises")
+        return
+    rep.case((fw.row_key(row), "set_params", fw.row_key(other)))
+    if not ok:
+        viol(rep, row, "set_params", f"after get_gemini() and set_params to the configuration of {describe(other)}, get_gemini() is not "
+                                     f"{other['expect']['family']} {'OvO' if other['expect']['ovo'] else 'OvA'}: {msg}", "set-params-ignored")
+
+
+_BUDGET = {}
+
+
+def ctx_rows_budget(cls):
+    return _BUDGET.get(cls, 12)
 
 
 def check_error_api(rep, ctx, row):
@@ -427,6 +477,7 @@ def equiv_rows(rows):
 
 
 def run_rows(rep, ctx, rows, tier):
+    ctx.all_rows = rows
     for row in rows:
         check_row(rep, ctx, row)
 
